@@ -587,7 +587,13 @@ CaseChoice ==
        /\ val \in IF kind # "attribute" THEN {NA} ELSE IF Inspected(origin) THEN {"str"} ELSE ValAlts
        /\ ann \in IF kind # "attribute" THEN {NA} ELSE IF Inspected(origin) THEN {"none"} ELSE ExprAlts
        /\ (kind = "attribute" => ~(val = "none" /\ ann = "none"))       \* `x` alone is no attribute
-       /\ where \in IF kind = "attribute" /\ host = "class" /\ origin = "static" /\ val # "none" THEN {"container", "init"} ELSE {"container"}
+       \* where the names of the focus resolve: "init" = an attribute assigned in __init__ (scope = that function);
+       \* "shadowed" = a class whose BODY defines members named like the names used in its own header (bases, decorators):
+       \* the header still resolves in the container, and must do so after reload (_load_class attaches the class's
+       \* expressions to the class itself first, the container's loader then re-attaches them to the container)
+       /\ where \in IF kind = "attribute" /\ host = "class" /\ origin = "static" /\ val # "none" THEN {"container", "init"}
+                     ELSE IF kind = "class" /\ origin = "static" /\ (bases \notin {"none", "str"} \/ deco # "none") THEN {"container", "shadowed"}
+                     ELSE {"container"}
        \* how the alias came to be: single-line import, multi-line import (endlineno > lineno), expansion of a wildcard
        \* import (a new name / overwriting a member defined above it: expand_wildcards), inspection (no line numbers)
        /\ alno \in IF kind # "alias" THEN {NA} ELSE IF Inspected(origin) THEN {"none"}
@@ -600,7 +606,12 @@ CaseChoice ==
        /\ guard \in IF origin = "static" /\ kind \in {"class", "function", "attribute"} /\ mname = "x" /\ host \notin {"dataclass", "init"} /\ where = "container"
                      THEN (IF host = "none" /\ bases \in {NA, "none"} /\ deco \in {NA, "none"} /\ pann \in {NA, "nopar"}
                               /\ ret \in {NA, "none"} /\ val \in {NA, "str"} /\ ann \in {NA, "none"}
-                           THEN {"none", "typecheck", "stub"} ELSE {"none", "typecheck"})
+                           THEN {"none", "typecheck", "stub"}
+                           \* "stubsig": a function that exists at runtime with a bare signature `(p)` while the sibling stub spells
+                           \* `(p: T, q: T = ...) -> T`: merger._merge_function_stubs takes the annotations of the parameters the
+                           \* runtime signature HAS and the return annotation; a parameter only the stub knows is not added
+                           ELSE IF kind = "function" /\ host = "none" /\ deco = "none" /\ pann = "none" /\ pdef = "none" /\ ~pdoc /\ ret = "none"
+                           THEN {"none", "typecheck", "stubsig"} ELSE {"none", "typecheck"})
                      ELSE {"none"}
        \* the docstring text shapes, on otherwise plain objects of every kind and origin
        \* (the docstring of an inspected attribute is that of the type of its value, not a text of the module)
@@ -649,7 +660,7 @@ SubMod == [Obj("module", "sub") EXCEPT !.filepath = "path"]
 
 Focus ==
   LET k == kind
-      b == [Obj(k, mname) EXCEPT !.runtime = (guard = "none"), !.doc = DocOf(origin), !.lineno = LineOf(origin, k), !.endlineno = LineOf(origin, k)]
+      b == [Obj(k, mname) EXCEPT !.runtime = (guard \in {"none", "stubsig"}), !.doc = DocOf(origin), !.lineno = LineOf(origin, k), !.endlineno = LineOf(origin, k)]
       scopeOf(ev) == IF where = "init" /\ ~IsScalar(ev.e) THEN EV(ev.e, "init") ELSE ev
   IN CASE k = "module" -> [b EXCEPT !.filepath = "path", !.lineno = "none", !.endlineno = "none"]
        [] k = "class" ->
@@ -671,8 +682,10 @@ Focus ==
                                  THEN <<Par(NoEV, NoEV, NoDoc),
                                         ParK(AltExpr(pann), AltExpr(pdef), IF pdoc THEN Doc(TRUE, "none", "text") ELSE NoDoc,
                                              IF dfield = "kw_true" THEN "kwonly" ELSE "poskw")>>
+                                 ELSE IF guard = "stubsig" THEN <<Par(StrEV, NoEV, NoDoc)>>       \* annotation merged from the stub
                                  ELSE <<Par(AltExpr(pann), AltExpr(pdef), IF pdoc THEN Doc(TRUE, "none", "text") ELSE NoDoc)>>,
-                      !.returns = IF part = "expr" THEN (IF slot = "function.returns" THEN SlotEV ELSE NoEV) ELSE AltExpr(ret)]
+                      !.returns = IF part = "expr" THEN (IF slot = "function.returns" THEN SlotEV ELSE NoEV)
+                                  ELSE IF guard = "stubsig" THEN StrEV ELSE AltExpr(ret)]
        [] k = "attribute" ->
             [b EXCEPT !.labels = "some",
                       !.value = IF part = "expr" THEN (IF slot = "attribute.value" THEN SlotEV ELSE IF slot = "attribute.annotation" THEN NoEV ELSE StrEV)
